@@ -257,6 +257,57 @@ func (x *Exec) callInterface(st *State, call *ast.CallExpr, f *ast.SelectorExpr,
 		}
 	}
 	args := x.evalArgs(st, call, sig, nil)
+	allContract := len(targets) > 0
+	for _, tg := range targets {
+		if tg.fi == nil || !tg.fi.hasContract() {
+			allContract = false
+		}
+	}
+	if !allInline && allContract && x.spec == 0 && len(targets) <= 64 {
+		// every implementation carries a contract: dispatch over the dynamic type
+		// and use the implementation's contract (behavioural subtyping is checked
+		// where each implementation is verified)
+		n := len(st.pc)
+		var ends []*State
+		rv := x.retVars(sig)
+		for _, tg := range targets {
+			c := x.p.Reg.ctorFor(tg.t)
+			bs := st.clone()
+			bs.pc = append(bs.pc, isBox(c, v))
+			payload := unbox(c, v)
+			bs.assume(x.typeInv(tg.t, payload, bs, 1))
+			recv := payload
+			msig := tg.fn.Type().(*types.Signature)
+			_, ptrRecv := msig.Recv().Type().(*types.Pointer)
+			_, tIsPtr := tg.t.(*types.Pointer)
+			if ptrRecv && !tIsPtr {
+				x.unsupported(call, "pointer method on boxed value")
+			}
+			if !ptrRecv && tIsPtr {
+				recv = x.loadTyped(bs, tg.t.(*types.Pointer).Elem(), payload)
+			}
+			rs := x.contractCall(bs, tg.fi, append([]*Term{recv}, args...), call)
+			if bs.dead() {
+				continue
+			}
+			for j, r := range rs {
+				bs.vars[rv[j]] = r
+			}
+			ends = append(ends, bs)
+		}
+		mg := x.merge(n, ends)
+		if mg == nil {
+			st.kill()
+			return x.unknownResults(st, sig, m.Name())
+		}
+		*st = *mg
+		var out []*Term
+		for _, r := range rv {
+			out = append(out, st.vars[r])
+			delete(st.vars, r)
+		}
+		return out
+	}
 	if allInline && len(targets) > 0 && len(targets) <= 64 {
 		n := len(st.pc)
 		var ends []*State
@@ -643,17 +694,23 @@ func (x *Exec) doReturn(st *State, vals []*Term, at ast.Node, implicit bool) {
 			x.unsupported(at, "missing return")
 		}
 	}
-	// deferred calls, last in first out
-	defers := fr.defers
-	fr.defers = nil
-	for i := len(defers) - 1; i >= 0; i-- {
-		x.evalCall(st, defers[i].call)
+	// deferred calls of this frame, last in first out
+	var mine []deferred
+	var rest []deferred
+	for _, d := range st.defers {
+		if d.frame == fr {
+			mine = append(mine, d)
+		} else {
+			rest = append(rest, d)
+		}
+	}
+	st.defers = rest
+	for i := len(mine) - 1; i >= 0; i-- {
+		x.evalCall(st, mine[i].call)
 		if st.dead() {
-			fr.defers = defers
 			return
 		}
 	}
-	fr.defers = defers
 	if fr.isTop {
 		for i, rv := range fr.fi.Results {
 			if i < len(vals) {
@@ -749,8 +806,21 @@ func (x *Exec) contractCall(st *State, fi *FuncInfo, args []*Term, call *ast.Cal
 			x.popFrameNameOnly(func() { x.oblige(st, "nil", fi.Key+"@receiver", Neq(args[0], IntLit(0)), call) })
 		}
 	}
+	assumePre := false
+	if x.top.Contract != nil {
+		for _, k := range x.top.Contract.AssumePre {
+			if k == fi.Key || k == fi.Decl.Name.Name {
+				assumePre = true
+			}
+		}
+	}
 	for _, r := range fi.Requires {
 		g := x.evalSpec(st, r.Expr)
+		if assumePre {
+			st.assume(g)
+			x.assumed = append(x.assumed, fmt.Sprintf("%s assumes the precondition %s of its callee %s at %s", x.top.Name(), r.Label, fi.Name(), x.p.relPos(call)))
+			continue
+		}
 		x.popFrameNameOnly(func() { x.oblige(st, "pre", fi.Key+"@"+r.Label, g, call) })
 	}
 	// termination of recursion
@@ -762,7 +832,22 @@ func (x *Exec) contractCall(st *State, fi *FuncInfo, args []*Term, call *ast.Cal
 	eff := x.p.effects(fi)
 	if fi.HasMod {
 		locs, elems := x.evalModifies(st, fi)
+		wholeHeaps := map[string]bool{}
+		var cellLocs []modLoc
+		for _, l := range locs {
+			if l.ref == nil {
+				wholeHeaps[l.heap] = true
+			} else {
+				cellLocs = append(cellLocs, l)
+			}
+		}
+		locs = cellLocs
 		x.popFrameNameOnly(func() {
+			for _, h := range sortedKeys(wholeHeaps) {
+				if x.hasMod && !x.modHeaps[h] {
+					x.oblige(st, "frame", "callee may write any cell of "+h, tFalse, call)
+				}
+			}
 			for _, l := range locs {
 				x.frameCheck(st, l.heap, l.ref, call)
 			}
@@ -787,6 +872,10 @@ func (x *Exec) contractCall(st *State, fi *FuncInfo, args []*Term, call *ast.Cal
 		}
 		for _, name := range sortedKeys(touched) {
 			elem := touched[name]
+			if wholeHeaps[name] {
+				x.havocHeap(st, name, elem)
+				continue
+			}
 			var mine []*Term
 			for _, l := range locs {
 				if l.heap == name {
@@ -817,7 +906,7 @@ func (x *Exec) contractCall(st *State, fi *FuncInfo, args []*Term, call *ast.Cal
 					cs = append(cs, Neq(r, m))
 				}
 				for _, sl := range ranges {
-					cs = append(cs, Or(Lt(r, slBase(sl)), Ge(r, Add(slBase(sl), slLen(sl)))))
+					cs = append(cs, Or(Lt(r, slBase(sl)), Ge(r, Add(slBase(sl), slCap(sl)))))
 				}
 				return And(cs...)
 			})
@@ -835,6 +924,9 @@ func (x *Exec) contractCall(st *State, fi *FuncInfo, args []*Term, call *ast.Cal
 	}
 	for _, e := range fi.Ensures {
 		st.assume(x.evalSpec(st, e.Expr))
+	}
+	for _, g := range fi.GhostSets {
+		x.ghostSet(st, g.Name, x.evalSpec(st, g.Expr))
 	}
 	x.popFrame()
 	for p := range savedBoxed {
@@ -863,7 +955,7 @@ func (x *Exec) frameCheckRange(st *State, heap string, sl *Term, at ast.Node) {
 	for _, m := range x.modEl {
 		for _, h := range m.heaps {
 			if h == heap {
-				alts = append(alts, And(Le(slBase(m.sl), slBase(sl)), Le(Add(slBase(sl), slLen(sl)), Add(slBase(m.sl), slLen(m.sl)))))
+				alts = append(alts, And(Le(slBase(m.sl), slBase(sl)), Le(Add(slBase(sl), slLen(sl)), Add(slBase(m.sl), slCap(m.sl)))))
 			}
 		}
 	}
@@ -878,6 +970,14 @@ func (x *Exec) evalModifies(st *State, fi *FuncInfo) ([]modLoc, []modElems) {
 	defer func() { x.spec-- }()
 	for _, m := range fi.Modifies {
 		m = ast.Unparen(m)
+		if call, ok := m.(*ast.CallExpr); ok && markerName(call) == "__heapof" {
+			// whole heaps of a type
+			pt := x.typeOf(call.Args[0]).Underlying().(*types.Pointer)
+			for _, h := range heapsOfType(pt.Elem()) {
+				locs = append(locs, modLoc{heap: h, ref: nil})
+			}
+			continue
+		}
 		if call, ok := m.(*ast.CallExpr); ok && markerName(call) == "__elems" {
 			sl := x.eval(st, call.Args[0])
 			t := x.typeOf(call.Args[0]).Underlying().(*types.Slice)
@@ -1087,6 +1187,23 @@ func (x *Exec) evalMarker(st *State, call *ast.CallExpr, name string) *Term {
 			x.unsupported(call, "rangeindex() outside a range-loop invariant")
 		}
 		return x.rangeIdx[len(x.rangeIdx)-1]
+	case "__ghost":
+		return x.ghostGet(st, strLit(call.Args[0], x.info()))
+	case "__lastsent":
+		ch := x.eval(st, call.Args[0])
+		t := x.typeOf(call)
+		return x.hread(st, "ghost$sent$"+sanitize(string(x.p.Reg.sortOf(t))), x.p.Reg.sortOf(t), ch)
+	case "__sentcount":
+		ch := x.eval(st, call.Args[0])
+		return x.hread(st, "ghost$sentn", SInt, ch)
+	case "__disjoint":
+		// the backing arrays (full capacity) of two slices do not overlap
+		a := x.eval(st, call.Args[0])
+		b := x.eval(st, call.Args[1])
+		if a.Sort != SSlice || b.Sort != SSlice {
+			x.unsupported(call, "disjoint() takes two slices")
+		}
+		return Or(Le(Add(slBase(a), slCap(a)), slBase(b)), Le(Add(slBase(b), slCap(b)), slBase(a)), Eq(slCap(a), IntLit(0)), Eq(slCap(b), IntLit(0)))
 	case "__samefn":
 		a := x.eval(st, call.Args[0])
 		b := x.eval(st, call.Args[1])
@@ -1106,7 +1223,9 @@ func (x *Exec) evalMarker(st *State, call *ast.CallExpr, name string) *Term {
 		bv := BoundVar(fmt.Sprintf("%s!q%d", pv.Name(), x.nfresh), SInt)
 		tmp := st.clone()
 		tmp.vars[pv] = bv
+		x.boundVars[pv] = bv
 		body := x.eval(tmp, closureExpr(fl))
+		delete(x.boundVars, pv)
 		rng := And(Le(lo, bv), Lt(bv, hi))
 		if name == "__forall" {
 			return Forall([]*Term{bv}, Implies(rng, body))
@@ -1183,21 +1302,21 @@ func (x *Exec) evalConversion(st *State, call *ast.CallExpr, to types.Type) *Ter
 		if n, ok := v.intVal(); ok && n.IsInt64() && n.Int64() >= 0 && n.Int64() < 0x10ffff {
 			return x.strLit(string(rune(n.Int64())))
 		}
-		r := x.app("str.fromrune", SStr, v)
-		x.axiom(And(Le(IntLit(1), x.app("str.len", SInt, r)), Le(x.app("str.len", SInt, r), IntLit(4))))
+		r := x.app("s.fromrune", SStr, v)
+		x.axiom(And(Le(IntLit(1), x.app("s.len", SInt, r)), Le(x.app("s.len", SInt, r), IntLit(4))))
 		return r
 	case isStringType(to):
 		if sl, ok := from.Underlying().(*types.Slice); ok {
 			v := x.eval(st, arg)
 			h := x.heap(st, heapOfType(sl.Elem()), x.p.Reg.sortOf(sl.Elem()))
-			return x.app("str.ofslice", SStr, h, slBase(v), slLen(v))
+			return x.app("s.ofslice", SStr, h, slBase(v), slLen(v))
 		}
 	}
 	if sl, ok := to.Underlying().(*types.Slice); ok && isStringType(from) {
 		s := x.eval(st, arg)
 		var n *Term
 		if isIntType(sl.Elem()) && basicOf(sl.Elem()).Kind() == types.Int32 {
-			n = x.app("str.runecount", SInt, s)
+			n = x.app("s.runecount", SInt, s)
 			x.axiom(And(Le(IntLit(0), n), Le(n, x.strLen(s))))
 		} else {
 			n = x.strLen(s)
@@ -1474,6 +1593,24 @@ func (x *Exec) appendN(st *State, slT *types.Slice, s, n, srcBase, v *Term, at a
 			}
 			return And(cs...)
 		}
+		// index-form quantified version for reads under quantifiers
+		x.zeroLinksQ[nh.Op] = func() []*Term {
+			x.nfresh++
+			j := BoundVar(fmt.Sprintf("j!q%d", x.nfresh), SInt)
+			out := []*Term{
+				ForallPat([]*Term{j}, Implies(And(Not(fits), Le(IntLit(0), j), Lt(j, oldLen)),
+					Eq(Select(nhh, Add(resBase, j)), Select(oldh, Add(oldBase, j)))), Select(nhh, Add(resBase, j))),
+			}
+			if val != nil {
+				out = append(out, Eq(Select(nhh, Add(resBase, oldLen)), val))
+			} else if srcBase != nil {
+				x.nfresh++
+				i := BoundVar(fmt.Sprintf("j!q%d", x.nfresh), SInt)
+				out = append(out, ForallPat([]*Term{i}, Implies(And(Le(IntLit(0), i), Lt(i, n)),
+					Eq(Select(nhh, Add(resBase, Add(oldLen, i))), Select(oldh, Add(srcBase, i)))), Select(nhh, Add(resBase, Add(oldLen, i)))))
+			}
+			return out
+		}
 		x.setHeap(st, name, nh)
 	}
 	return mkSlice(resBase, newLen, resCap)
@@ -1484,7 +1621,7 @@ func (x *Exec) inModElems(heap string, from, n *Term) *Term {
 	for _, m := range x.modEl {
 		for _, h := range m.heaps {
 			if h == heap {
-				alts = append(alts, And(Le(slBase(m.sl), from), Le(Add(from, n), Add(slBase(m.sl), slLen(m.sl)))))
+				alts = append(alts, And(Le(slBase(m.sl), from), Le(Add(from, n), Add(slBase(m.sl), slCap(m.sl)))))
 			}
 		}
 	}
